@@ -23,12 +23,13 @@ def gen(rng, i):
                      "dur": rng.choice([0, 30, 100]), "thread": j % rng.choice([1, 2]), "cb": rng.random() < 0.3,
                      "cb_raise": rng.choice([False, False, True, "first", "first"]), "K": rng.sample([0, 30, 100, 130], rng.choice([0, 0, 1]))})
     return {"base": rng.choice(["pool", "pool", "sync"]), "workers": rng.choice([1, 2]), "layers": layers, "subs": subs,
-            "probe": rng.choice([700, 900]), "horizon": 6000}
+            "probe": rng.choice([700, 900]), "horizon": 25000}
 
 
 def run(ck):
     quick = ck.tier == "quick"
     rng = random.Random(ck.seed)
+    ck.allow_truncation = True   # blocking / spinning paths may exhaust the step budget under unfair schedules
     ck.mc("Retry", "Retry.mc2.cfg", timeout=3000)      # a policy retrying values + cancels: worker survives (D9b repaired)
     ck.mc("Poll", "Poll.mc2.cfg", timeout=3000)        # raising poll function
     # stacks with a fault at every user-code site + probe; judged by FaultObs and by the sequential oracle
